@@ -187,9 +187,8 @@ void gauleg(double x1, double x2, int npts, double* x, double* w) {
 
 		z=cos( M_PI*(i-0.25)/(npts+.5) );
 
-		abszdiff = fabs(z-z1);
-
-		while (abszdiff > EPS) 
+		// always refine at least once: the derivative pp is needed below
+		do
 		{
 			p1 = 1.0;
 			p2 = 0.0;
@@ -205,7 +204,7 @@ void gauleg(double x1, double x2, int npts, double* x, double* w) {
 
 			abszdiff = fabs(z-z1);
 
-		}
+		} while (abszdiff > EPS);
 
 		x[i-1] = xm - xl*z;
 		x[npts+1-i-1] = xm + xl*z;
